@@ -41,6 +41,34 @@ func registerLibraryModels() {
 	for _, n := range []string{"(*sync.Mutex).Lock", "(*sync.Mutex).Unlock", "(*sync.RWMutex).Lock", "(*sync.RWMutex).Unlock", "(*sync.RWMutex).RLock", "(*sync.RWMutex).RUnlock"} {
 		I[n] = noop
 	}
+	// ---- process-level nondeterminism: hash/maphash seeds, the process id ----
+	// maphash.MakeSeed: a fresh environment value per call (per process when it initialises a package-level variable);
+	// maphash.String/Bytes: an uninterpreted function of (seed, length, bytes).
+	I["hash/maphash.MakeSeed"] = func(e *Engine, caller *frame, fn *ssa.Function, args []Value) Value {
+		e.envCtr++
+		in := e.input(fmt.Sprintf("env.maphash.MakeSeed.%d", e.envCtr), "int", BVSort(64))
+		return Struct{in.t}
+	}
+	maphashOf := func(e *Engine, seed Value, b []*Term) Value {
+		st, ok := seed.(Struct)
+		if !ok || len(st) != 1 {
+			e.unsupported("hash/maphash with an unexpected Seed representation")
+		}
+		as := append([]*Term{st[0].(*Term)}, b...)
+		return e.tt.App(fmt.Sprintf("maphash.%d", len(b)), BVSort(64), as...)
+	}
+	I["hash/maphash.String"] = func(e *Engine, caller *frame, fn *ssa.Function, args []Value) Value {
+		return maphashOf(e, args[0], e.strBytes(args[1].(Str)))
+	}
+	I["hash/maphash.Bytes"] = func(e *Engine, caller *frame, fn *ssa.Function, args []Value) Value {
+		return maphashOf(e, args[0], sliceBytes(args[1]))
+	}
+	I["os.Getpid"] = func(e *Engine, caller *frame, fn *ssa.Function, args []Value) Value {
+		e.envCtr++
+		in := e.input(fmt.Sprintf("env.os.Getpid.%d", e.envCtr), "int", BVSort(64))
+		e.assume(e.tt.SLt(e.tt.IntConst(0, 64), in.t))
+		return in.t
+	}
 	I["(*sync.Once).Do"] = func(e *Engine, caller *frame, fn *ssa.Function, args []Value) Value {
 		p := args[0].(*Value)
 		if e.onceDone == nil {
